@@ -141,6 +141,36 @@ def ob_public(ctx, pads, N):
                    sample=lambda m: {'pad': pad, 'content': model_bytes(m, content)})
 
 
+def ob_offset(ctx, offsets, N):
+    """the stream handed to the reader is already positioned past k bytes of other data (a DiffX document embedded
+    in a larger stream): records must be those of the document"""
+    from pydiffx.reader import DiffXReader
+    k = ctx.pick('offset', offsets)
+    pad = ctx.pick('pad', [0, 7, 60, 77])
+    n = ctx.choose(1, N, 'n')
+    content = sym_bytes(ctx, 'c', n)
+    el = lift(content).el
+    for e in el[:-1]:
+        ctx.assume(z3.And(e != 10, e != 13))
+    ctx.assume(el[-1] == 10)
+    pre, post = _file(pad, el)
+    junk = (b'Received: by mail\n#diffx: not this one\n' * 20)[:k]
+    data = mk_seq(tuple(junk) + tuple(pre) + tuple(el) + tuple(post), bytes)
+    st = SymStream(data)
+    st.seek(k)
+    wit = lambda m: {'data': model_bytes(m, data), 'k': None, 'content': model_bytes(m, content), 'pad': pad, 'offset': k}
+    try:
+        recs = list(DiffXReader(st))
+    except PathTimeout:
+        return viol('nontermination', wit(ctx.model()))
+    except Exception as e:
+        return viol('raised:%s' % type(e).__name__, wit(ctx.model()))
+    if [r['section'] for r in recs] != ['diffx', '.change', '..file', '...meta', '...diff', '..file', '...meta']:
+        return viol('records', wit(ctx.model()))
+    return verdict(ctx, [('diff-content', lift(content).eq_cond(recs[4].get('diff')))], witness=wit,
+                   sample=lambda m: {'offset': k, 'pad': pad, 'content': model_bytes(m, content)})
+
+
 def obligations(tier):
     from pydiffx.reader import DiffXReader
     obs = []
@@ -167,6 +197,11 @@ def obligations(tier):
                   desc='public iterator with the implementation\'s own block size; first header padded through every '
                        'alignment in the stated range; diff content symbolic',
                   bounds={'pad': [pads[0], pads[-1]], 'content_len': [1, 3 if quick else 4]}))
+    offs = [0, 1, 2, 3, 17, 95, 96, 97, 150] if quick else list(range(0, 40)) + [95, 96, 97, 191, 192, 193, 500]
+    obs.append(Ob('reader[pre-positioned stream]', ob_offset, dict(offsets=offs, N=2 if quick else 3),
+                  must_reach=['DiffXReader.iter_sections'], path_timeout=8,
+                  desc='the reader is handed a stream already positioned at offset k (document embedded after other data)',
+                  bounds={'offsets': offs if quick else [0, 500], 'content_len': [1, 2 if quick else 3]}))
     return obs
 
 
@@ -235,7 +270,9 @@ def replay(ob, label, w):
             bad = 'eof flag %r' % (eof,)
         return {'violated': bad is not None, 'signature': 'read_until:post', 'detail': '%s for %r' % (bad, w)}
     data = w['data']
-    rd = DiffXReader(io.BytesIO(data))
+    stream = io.BytesIO(data)
+    stream.seek(w.get('offset') or 0)
+    rd = DiffXReader(stream)
     if w.get('k') is not None:
         orig = rd._read_until
         rd._read_until = lambda c, chunk_size=None: orig(c, chunk_size=w['k'])
